@@ -162,6 +162,8 @@ let handle (s : sexp) : string = match s with
       sb (if bool_of mono then check_sup_mono c cells (q_of m) else check_sup c cells (q_of m))
   | L [A "exceeds"; c; theta; m] -> sb (check_exceeds (list_of q_of c) (q_of theta) (q_of m))
   | L [A "p2cq"; p] -> sl sq (p2c_q false (list_of q_of p))
+  | L [A "fpslayout"; alpha] -> sl sq (fps_layout_q (list_of q_of alpha))
+  | L [A "fpprob"; phis; pts] -> sl (so sz) (fp_prob_dists (list_of q_of phis) (list_of (pair_of q_of) pts))
   | L [A "scale"] -> sz scaleZ
   | _ -> failwith "unknown command"
 
